@@ -1424,6 +1424,25 @@ def _assigns(stmt: ast.AST, name: str) -> bool:
     return False
 
 
+def _first_cfg_node(cfg: CFG, stmt: ast.stmt):
+    """The CFG node control reaches first when `stmt` is executed (the first atomic test of a compound statement)."""
+    ns = cfg.nodes_of(stmt)
+    if ns:
+        return ns[0]
+    e = getattr(stmt, "test", None) or getattr(stmt, "iter", None) or getattr(stmt, "subject", None)
+    while e is not None:
+        if isinstance(e, ast.BoolOp):
+            e = e.values[0]
+        elif isinstance(e, ast.UnaryOp) and isinstance(e.op, ast.Not):
+            e = e.operand
+        else:
+            break
+    ns = cfg.node_for_expr(e) if e is not None else []
+    if not ns:
+        raise AnalysisError(f"no CFG node for the statement at line {stmt.lineno}")
+    return ns[0]
+
+
 def removed_child_is_none(check: Check, repo: Repo, rule: str = "EDIT-SENTINEL") -> None:
     """Clause of EDIT-SENTINEL: in the node arm a removed child becomes None, it is not dropped from the kwargs."""
     fn = repo.func("language.visitor", "visit")
@@ -1446,7 +1465,7 @@ def removed_child_is_none(check: Check, repo: Repo, rule: str = "EDIT-SENTINEL")
         cfg_ = CFG(fn)
         store_nodes = {n_ for s in stores for n_ in cfg_.nodes_of(s)}
         head_ = cfg_.nodes_of(lp)[0]
-        first_ = cfg_.nodes_of(lp.body[0])[0]
+        first_ = _first_cfg_node(cfg_, lp.body[0])
         unconditional = bool(stores) and (first_ in store_nodes or cfg_.find_path(
             first_, lambda nd: nd is head_, follow=no_exc, avoid=lambda nd: nd in store_nodes) is None)
         ok = unconditional and not removals
